@@ -20,6 +20,7 @@ claimed = {
  "C17": ("W-proxy", "generated route configurations (request/response header add with append true/false and remove at route, virtual-host and router level; prefix / regex path rewrite and host rewrite towards HTTP/1 upstreams; redirect with scheme/host/path/code; direct response with status/body; retry policy with retry_on, num_retries, status_codes, per-try timeout; timeout sources: protocol-supplied, x-mosn-global-timeout header, route, default) over bolt, boltv2 and HTTP/1; the per-attempt upstream log and the single downstream reply are compared with a small reference model written from the statement, under scripted per-attempt upstream outcomes", "attempts that fail to connect are not modelled (every host accepts in this arm); with a per-try timeout configured the retry-condition clause is not judged (any attempt may legitimately time out in the simulated network); the fresh-host clause is judged only for the HTTP/1 pool with request-round-robin and no per-try timeout; attempts <= 1+max(3,num_retries) as the property's anchor defines the budget", "4 C17"),
  "C12": ("W-update", "histories of 3-12 runtime updates on a running MOSN (whole-router replace, AddRoute / RemoveAllRoutes on named and default virtual hosts, cluster add/update with and without hosts, multi-name cluster delete, host replace / append / delete, multi-locality xDS endpoint assignments through the real istio converter, listener add / update / delete, repeated, no-op and invalid operations) interleaved with bolt traffic; after every operation the live route tables (a battery of MatchRoute lookups) and host sets are compared with (a) a reference model of the update history and (b) objects freshly built from the unredacted dumped configuration; 4 s after the last update the persisted file must equal the effective configuration; every request is judged against the configurations in force while it was in flight", "the mosn_debug-tagged admin handlers are thin wrappers over the same manager calls and are not compiled in; a connection keeps the listener filter configuration (router binding) it was accepted with; LB policy of the live cluster is not compared", "4 C12"),
  "C20": ("W-update", "a distinct marker key is planted (by reflection over the loaded v2.MOSNConfig, filling empty TLS positions) in every TLS context of the configuration - listener tls_context, tls_context_set, cluster contexts, cluster-manager context - and in every listener added/updated at run time; between the runtime updates of the C12 history every config_dump variant (none, mosnconfig, allrouters, allclusters, alllisteners, router=, cluster=, listener=, unknown key) and DumpJSON is called on the live MOSN and scanned for every marker; the effective configuration before/after the dump calls must be equal (canonical JSON), every key it held must still be there, and the persisted file must hold real keys, not the placeholder", "TLS handshakes themselves are outside the simulated transport (C13 note): 'TLS keeps working' is judged as 'the live configuration still holds the real key'", "4 C20"),
+ "C11": ("W-proxy", "graceful-stop half only: on a running MOSN with bolt / boltv2 / ping-pong xprotocol / HTTP/1 traffic (1-4 connections, segmented and delayed transport, upstream answers after 0 ms .. 2x drain timeout) the stop sequence of stagemanager.Stop (Mosn.Shutdown, then Mosn.Close, then process exit = every socket closed) is started at a drawn instant; every request the clients had sent by then is classified by phase (request bytes still in flight / in MOSN before upstream / waiting for upstream / response in flight) and must receive its own successful reply if its upstream answers 2 s inside the drain window; Shutdown must return within drain timeout + 2 s and leave no listener accepting", "the hot-upgrade half (SIGHUP: listener fd passing, connection transfer to a second process) needs two OS processes and unix-socket fd passing and cannot run inside one simulated process: not decided. HTTP/2 traffic not built. Requests sent after the stop request are not judged", "4 C11"),
 }
 
 na = {
@@ -28,7 +29,7 @@ na = {
  "C15": "subset selection and both builders are pure functions of (host metadata, selectors, fallback policy, criteria); no schedule, time, fault or history in the statement",
  "C19": "load/dump round trip is a pure function of the configuration; no time, I/O fault, concurrency or history in the statement",
 }
-pending = ["C11","C18"]
+pending = ["C18"]
 
 def main():
     checks=[]
